@@ -10,7 +10,7 @@ def rule_key(r):
     return (m.group(1), int(m.group(2) or 0), m.group(3) or "") if m else (r, 0, "")
 
 def claims():
-    rows = ["| Prop | Level | Obligations (quick) | Known findings | Rules with instances on today's tree |", "|---|---|---|---|---|"]
+    rows = ["| Prop | Level | Obligations (committed evidence: thorough tier, three configurations where the check has a matrix) | Known findings | Rules with instances on today's tree |", "|---|---|---|---|---|"]
     for f in sorted(glob.glob(V + "/evidence/C*.json")):
         e = json.load(open(f)); c = e["coverage"]
         groups = {}
